@@ -37,6 +37,10 @@ func init() {
 		{Name: "coop", Pkg: "./mon/c09", Instr: []string{"core/stat/base/leap_array.go", "core/stat/base/bucket_leap_array.go", "core/stat/base/metric_bucket.go", "core/stat/base/mutex.go", "core/stat/base/sliding_window_metric.go"}},
 		{Name: "stress", Pkg: "./mon/c09", Race: true, Env: []string{"VERIF_MODE=stress"}, DeathSig: "C09/stress:process-died"},
 	}})
+	specs = append(specs, Spec{ID: "C10", Level: "exploration", MinDistinct: 1000, Engines: []Engine{
+		{Name: "seq", Pkg: "./mon/c10", Procs: 1},
+		{Name: "coop", Pkg: "./mon/c10", Instr: []string{"core/flow/tc_throttling.go"}, Env: []string{"VERIF_MODE=coop"}},
+	}})
 	specs = append(specs, Spec{ID: "C13", Level: "exploration", MinDistinct: 50, Engines: []Engine{
 		{Name: "seq", Pkg: "./mon/c13", Procs: 1},
 	}})
